@@ -295,7 +295,11 @@ func run(c *core.Ctx) {
 	reserved(r.alpha.symbols, c.Pick(4, 5), str("reserved"))
 	// numbers
 	nums := []any{int64(0), int64(1), int64(-1), int64(1) << 31, -(int64(1) << 31), int64(1)<<53 + 1, -(int64(1) << 53) - 1, int64(math.MaxInt64), int64(math.MinInt64),
-		0.0, math.Copysign(0, -1), 0.1, 1.5, -1.5, 1e-7, 1e20, 1e21, 123456789.125, 5e-324, math.MaxFloat64, -math.MaxFloat64}
+		0.0, math.Copysign(0, -1), 0.1, 1.5, -1.5, 1e-7, 1e20, 1e21, 123456789.125, 5e-324, math.MaxFloat64, -math.MaxFloat64,
+		// 17 significant digits at every small magnitude: the written text has up to 22 fraction digits
+		// with leading zeros, which is where the parsers' digit accumulators hand over to text form
+		0.12345678901234567, 0.012345678901234567, 0.0012345678901234567, 0.00012345678901234567, 0.000012345678901234567,
+		1.2345678901234567, 12345.678901234567, 9007199254740993.0, 0.1 + 0.2, 1.0 / 3.0, 2.0 / 3.0 / 1000.0}
 	for _, n := range nums {
 		for i := range contexts {
 			if contexts[i].class == "key" {
